@@ -19,6 +19,8 @@ pub struct RichOpts {
     pub only_issue: bool,
     /// probability of planting a reserved member name somewhere in the claims (C13)
     pub plant: f64,
+    /// force decoys on (C12)
+    pub decoy_on: bool,
 }
 
 pub const ISSUER_KEYS: [(&str, &str); 3] = [("K1", "ES256"), ("KE1", "EdDSA"), ("S1", "HS256")];
@@ -34,7 +36,7 @@ pub fn run(ctx: &mut Ctx, o: &RichOpts) {
             0 => None,
             i => Some(HOLDER_KEYS[i - 1]),
         };
-        let decoy = r.gen_bool(0.5);
+        let decoy = o.decoy_on || r.gen_bool(0.5);
         let mut claims = rclaims(&mut r, &o.tree, now());
         if o.plant > 0.0 && r.gen_bool(o.plant) {
             plant_reserved(&mut claims, &mut r);
